@@ -77,6 +77,11 @@ CLAIMED = {
             "The network is an uninterpreted function, so no model-level exhaustiveness is claimed: bundled constructive policies (random weights, "
             "eval mode) are decoded solo and at every position of batches of copies / unrelated instances / several sizes; TLC validates each "
             "record against InferTrace.tla (same greedy actions until a top-2 tie, padding afterwards, same reward and log-likelihood)."),
+    "C18": ("model_checking", "6", "GenCVRPTW.tla / GenMTVRP.tla (time-window construction arithmetic) TLC exhaustive over grids of distances x draws, replayed into the real generators with pinned draws; GenTrace.tla + Generators.tla contract on recorded instances of all generators",
+            "TLC exhaustively checks exact-arithmetic state machines of the CVRPTW and MTVRP time-window constructions against the generator contract "
+            "and the environment models' InstanceOK; every grid point is replayed into the real generators with pinned draws; all generators x "
+            "parameter grids x seeds are run for real and each instance, with one random mask-confined episode of the real environment, is validated "
+            "by TLC (GenTrace.tla) against the contract Generators.tla."),
 }
 PROTO_NOTE = ("Trusted base: TLC 1.8.0; the TLA+ protocol specifications under spec/decode, spec/train; float tolerances stated in the "
               "trace specifications; small-scope hypothesis.")
